@@ -27,6 +27,12 @@ package geo
 //@ assume func math.Asin(x)
 //@   pure
 //@   ensures result == fasin(x) || (isNaN(result) && isNaN(fasin(x)))
+//@ assume func math.Max(x, y)
+//@   pure
+//@   ensures implies(x > y, result == x) && implies(y > x, result == y) && implies(x == y, result == x || result == y)
+//@ assume func math.Min(x, y)
+//@   pure
+//@   ensures implies(x < y, result == x) && implies(y < x, result == y) && implies(x == y, result == x || result == y)
 //@ spec rad(d float64) float64 = d * (math.Pi / 180)
 //@ spec deg(r float64) float64 = r * (180 / math.Pi)
 //@ spec capRadius(dist float64) float64 = (dist + 0.07) / 6371008.7714
